@@ -348,78 +348,84 @@ type limitSite struct {
 	kind       string // "runes", "bytes", "json"
 	limit      string
 	persistSet bool
+	at         ssa.Instruction // the refusal itself (a return, or a store into a result)
 }
 
 // limitSites: the length comparisons (l > const) of root and of the callees `enter` admits,
 // classified by what is measured, with whether the refusal behind them is persistable.
 func limitSites(root *ssa.Function, enter func(*ssa.Function) bool) []limitSite {
 	var sites []limitSite
+	seenIf := map[string]bool{}
 	for _, di := range fw.DeepInstrsEnter(root, enter) {
-		iff, isIf := di.Instr.(*ssa.If)
-		if !isIf {
-			continue
-		}
-		b, ok := iff.Cond.(*ssa.BinOp)
-		if !ok {
-			continue
-		}
-		// l > maxIDLength / maxEventLength
-		lim, isC := fw.ConstInt(b.Y)
-		if !isC || b.Op != token.GTR {
-			continue
-		}
-		kind := ""
-		switch x := fw.Unwrap(b.X).(type) {
-		case *ssa.Call:
-			name := fw.CalleeName(x)
-			if name == "unicode/utf8.RuneCountInString" {
-				kind = "runes"
-			} else if name == "builtin.len" {
-				kind = "bytes"
-				// len of JSON() result => whole event
-				if len(x.Common().Args) == 1 {
-					if cc, _ := fw.CallOf(x.Common().Args[0]); cc != nil && strings.HasSuffix(fw.CalleeName(cc), ".JSON") {
-						kind = "json"
-					}
-				}
+		// a refusal: an EventValidationError handed back (returned, or stored into a result)
+		var errVal ssa.Value
+		switch x := di.Instr.(type) {
+		case *ssa.Return:
+			if len(x.Results) > 0 {
+				errVal = x.Results[len(x.Results)-1]
+			}
+		case *ssa.Store:
+			if isErrorIface(x.Val.Type()) {
+				errVal = x.Val
 			}
 		}
-		if kind == "" {
+		if errVal == nil {
 			continue
 		}
-		// the failing branch is the true branch of ">"; find the EventValidationError returned there
-		// (a literal built in place or by a helper; a named result assigned before a bare return)
-		tb := iff.Block().Succs[0]
-		persist, isValidationErr := false, false
-		for _, ins := range tb.Instrs {
-			var errVal ssa.Value
-			switch x := ins.(type) {
-			case *ssa.Return:
-				if len(x.Results) > 0 {
-					errVal = x.Results[len(x.Results)-1]
-				}
-			case *ssa.Store:
-				if isErrorIface(x.Val.Type()) {
-					errVal = x.Val
-				}
+		if _, isPhi := errVal.(*ssa.Phi); isPhi {
+			continue // a merged result: its alternatives are seen where they are produced
+		}
+		val, _, found := fw.StructFieldValue(errVal, di.Fr, "Persistable", 0)
+		if !found {
+			continue
+		}
+		persist := false
+		if val != nil {
+			if cst, ok := val.(*ssa.Const); !ok || cst.Value == nil || constant.BoolVal(cst.Value) {
+				persist = true
 			}
-			if errVal == nil {
+		}
+		// what was measured: the innermost dominating comparison of a length with a constant
+		// that holds in its "greater than" sense here
+		facts := fw.DomConds(di.Instr.Block())
+		for i := len(facts) - 1; i >= 0; i-- {
+			f := facts[i]
+			bo, ok := f.If.Cond.(*ssa.BinOp)
+			if !ok {
 				continue
 			}
-			val, _, found := fw.StructFieldValue(errVal, di.Fr, "Persistable", 0)
-			if found {
-				isValidationErr = true
-				if val != nil {
-					if cst, ok := val.(*ssa.Const); !ok || cst.Value == nil || constant.BoolVal(cst.Value) {
-						persist = true
+			lim, isC := fw.ConstInt(bo.Y)
+			if !isC {
+				continue
+			}
+			exceeds := (bo.Op == token.GTR && f.Taken) || (bo.Op == token.LEQ && !f.Taken)
+			if !exceeds {
+				continue
+			}
+			kind := ""
+			if x, isCall := fw.Unwrap(bo.X).(*ssa.Call); isCall {
+				switch fw.CalleeName(x) {
+				case "unicode/utf8.RuneCountInString":
+					kind = "runes"
+				case "builtin.len":
+					kind = "bytes"
+					if len(x.Common().Args) == 1 {
+						if cc, _ := fw.CallOf(x.Common().Args[0]); cc != nil && strings.HasSuffix(fw.CalleeName(cc), ".JSON") {
+							kind = "json"
+						}
 					}
 				}
 			}
+			if kind == "" {
+				continue
+			}
+			key := fmt.Sprintf("%p|%p|%s", f.If, di.Fr, kind)
+			if !seenIf[key] {
+				seenIf[key] = true
+				sites = append(sites, limitSite{iff: f.If, fr: di.Fr, kind: kind, limit: fmt.Sprint(lim), persistSet: persist, at: di.Instr})
+			}
+			break
 		}
-		if !isValidationErr {
-			continue
-		}
-		sites = append(sites, limitSite{iff: iff, fr: di.Fr, kind: kind, limit: fmt.Sprint(lim), persistSet: persist})
 	}
 	return sites
 }
@@ -449,7 +455,11 @@ func hardBeforeLenient(h, l limitSite) bool {
 	}
 	// the two sites are reached through chains of call sites; they are ordered at the first
 	// level where the chains differ (both instructions are then in the same function)
+	// (the hard check counts from where it is evaluated, the lenient one from where it refuses)
 	ch, cl := h.chain(), l.chain()
+	if l.at != nil && len(cl) > 0 {
+		cl[len(cl)-1] = l.at
+	}
 	k := 0
 	for k < len(ch) && k < len(cl) && ch[k] == cl[k] {
 		k++
